@@ -50,6 +50,12 @@ const (
 	sConvert // conversion of A to T
 	sTuple   // explicit tuple of Kids (modelled or inlined call results)
 	sStruct  // struct value: base A (may be nil = zero value) with overridden fields F
+	sKind    // canonical reflect kind of value/type A
+	sTypeOf  // canonical reflect.Type of value A
+	sRLen    // canonical reflect Len of value A
+	sTElem   // A.Elem() of a reflect.Type
+	sTKey    // A.Key() of a reflect.Type
+	sRCall   // result of a pure reflect method Str applied to A (and B): canonical
 )
 
 type Sym struct {
@@ -132,6 +138,22 @@ func (s *Sym) Key() string {
 		k = "slice(" + s.A.Key() + "," + s.Str + ")"
 	case sConvert:
 		k = "conv(" + s.A.Key() + "," + s.T.String() + ")"
+	case sKind:
+		k = "kindOf(" + s.A.Key() + ")"
+	case sTypeOf:
+		k = "typeOf(" + s.A.Key() + ")"
+	case sRLen:
+		k = "rlen(" + s.A.Key() + ")"
+	case sTElem:
+		k = "telem(" + s.A.Key() + ")"
+	case sTKey:
+		k = "tkey(" + s.A.Key() + ")"
+	case sRCall:
+		k = "r." + s.Str + "(" + s.A.Key()
+		if s.B != nil {
+			k += "," + s.B.Key()
+		}
+		k += fmt.Sprintf(")#%d", s.iter)
 	case sStruct:
 		var ks []string
 		for f, x := range s.F {
@@ -189,11 +211,18 @@ type pstate struct {
 	iters  map[ssa.Value]int
 	trail  []string // branch decisions, for diagnostics
 	escaped map[*ssa.Alloc]bool
+	symeq   map[string][]symRel // key -> syms it is known (not) equal to
+	havoced map[*ssa.BasicBlock]bool
+}
+
+type symRel struct {
+	other *Sym
+	eq    bool
 }
 
 func newState() *pstate {
 	return &pstate{env: map[ssa.Value]*Sym{}, cells: map[*ssa.Alloc]*Sym{}, facts: map[string]bool{}, dyn: map[string]types.Type{},
-		notdyn: map[string][]types.Type{}, eqc: map[string]string{}, neqc: map[string]map[string]bool{}, visits: map[*ssa.BasicBlock]int{}, iters: map[ssa.Value]int{}, escaped: map[*ssa.Alloc]bool{}}
+		notdyn: map[string][]types.Type{}, eqc: map[string]string{}, neqc: map[string]map[string]bool{}, visits: map[*ssa.BasicBlock]int{}, iters: map[ssa.Value]int{}, escaped: map[*ssa.Alloc]bool{}, symeq: map[string][]symRel{}, havoced: map[*ssa.BasicBlock]bool{}}
 }
 
 func (s *pstate) clone() *pstate {
@@ -234,6 +263,12 @@ func (s *pstate) clone() *pstate {
 	for k, v := range s.escaped {
 		n.escaped[k] = v
 	}
+	for k, v := range s.symeq {
+		n.symeq[k] = append([]symRel(nil), v...)
+	}
+	for k, v := range s.havoced {
+		n.havoced[k] = v
+	}
 	return n
 }
 
@@ -266,6 +301,15 @@ type PathSim struct {
 	MaxDepth int
 	// Seed, if set, initialises the path state (pre-assumed facts).
 	Seed func(st *pstate)
+	// OnEvent, if set, is called for every call/assertion event with the state at that moment.
+	OnEvent func(st *pstate, ev *Event)
+	// Havoc: when the visit bound of a loop header is reached, continue once more
+	// with every loop-carried value (phi) replaced by an unconstrained symbol
+	// instead of cutting the path: the returns after and inside the loop are then
+	// reached for arbitrary loop-carried state (a widening to top).
+	Havoc bool
+	// OnInstr, if set, is called before each instruction is interpreted.
+	OnInstr func(fn *ssa.Function, st *pstate, ins ssa.Instruction)
 }
 
 func NewPathSim(prog *Program) *PathSim {
@@ -344,6 +388,9 @@ func (ps *PathSim) define(st *pstate, v ssa.Value, s *Sym) {
 
 // exec interprets one non-control instruction.
 func (ps *PathSim) exec(fn *ssa.Function, st *pstate, ins ssa.Instruction) {
+	if ps.OnInstr != nil {
+		ps.OnInstr(fn, st, ins)
+	}
 	gen := func(v ssa.Value) int {
 		st.iters[v]++
 		return st.iters[v]
@@ -487,8 +534,12 @@ func zeroSym(t types.Type) *Sym {
 // localPath: is addr the address of (a field path inside) a local allocation?
 func localPath(addr *Sym) (*ssa.Alloc, []string, bool) {
 	var path []string
-	for addr != nil && addr.K == sFieldAddr {
-		path = append([]string{addr.Str}, path...)
+	for addr != nil && (addr.K == sFieldAddr || (addr.K == sIndexAddr && addr.B != nil && addr.B.K == sConst)) {
+		if addr.K == sFieldAddr {
+			path = append([]string{addr.Str}, path...)
+		} else {
+			path = append([]string{"[" + addr.B.Key() + "]"}, path...)
+		}
 		addr = addr.A
 	}
 	if addr == nil || addr.K != sFresh {
@@ -592,6 +643,15 @@ func (ps *PathSim) execCall(fn *ssa.Function, st *pstate, ci ssa.CallInstruction
 	}
 	ev.Deref = make([]*Sym, len(ev.Args))
 	for i, a := range ev.Args {
+		if a.K == sSlice && a.Str == ":" {
+			// arr[:] of a local array (variadic arguments): remember the elements
+			if al, path, ok := localPath(a.A); ok {
+				if v, ok := loadLocal(st, al, path, nil); ok {
+					ev.Deref[i] = v
+				}
+			}
+			continue
+		}
 		if al, path, ok := localPath(a); ok {
 			if v, ok := loadLocal(st, al, path, nil); ok {
 				ev.Deref[i] = v
@@ -609,6 +669,9 @@ func (ps *PathSim) execCall(fn *ssa.Function, st *pstate, ci ssa.CallInstruction
 		if ps.Model != nil {
 			s = ps.Model(&ev)
 		}
+		if s == nil {
+			s = reflectModel(st, &ev, val)
+		}
 		if s != nil {
 		} else if isErrorCtor(ev.Callee) {
 			s = &Sym{K: sNewErr, V: val, T: val.Type()}
@@ -621,6 +684,59 @@ func (ps *PathSim) execCall(fn *ssa.Function, st *pstate, ci ssa.CallInstruction
 		ev.Res = s
 	}
 	st.events = append(st.events, ev)
+	if ps.OnEvent != nil {
+		ps.OnEvent(st, &st.events[len(st.events)-1])
+	}
+}
+
+func isReflectValue(t types.Type) bool { return namedIs(t, "reflect", "Value") }
+func isReflectType(t types.Type) bool  { return namedIs(t, "reflect", "Type") }
+
+// reflectModel gives canonical symbols to the pure observers of package
+// reflect, so that two v.Kind() calls on one value are the same fact.
+func reflectModel(st *pstate, ev *Event, val *ssa.Call) *Sym {
+	com := ev.Instr.Common()
+	name := ""
+	var recvT types.Type
+	if com.IsInvoke() {
+		name = com.Method.Name()
+		recvT = com.Value.Type()
+	} else if ev.Callee != nil && ev.Callee.Signature.Recv() != nil && ev.Callee.Pkg != nil && ev.Callee.Pkg.Pkg.Path() == "reflect" {
+		name = ev.Callee.Name()
+		recvT = ev.Callee.Signature.Recv().Type()
+	} else {
+		return nil
+	}
+	if len(ev.Args) == 0 {
+		return nil
+	}
+	a := ev.Args[0]
+	switch {
+	case isReflectValue(recvT):
+		switch name {
+		case "Kind":
+			return &Sym{K: sKind, A: a, T: val.Type(), V: val}
+		case "IsValid":
+			return &Sym{K: sCmp, Op: token.NEQ, A: &Sym{K: sKind, A: a}, B: &Sym{K: sConst, C: constant.MakeInt64(0)}, T: val.Type(), V: val}
+		case "Type":
+			return &Sym{K: sTypeOf, A: a, T: val.Type(), V: val}
+		case "Len":
+			return &Sym{K: sRLen, A: a, T: val.Type(), V: val}
+		}
+	case isReflectType(recvT):
+		switch name {
+		case "Kind":
+			if a.K == sTypeOf {
+				return &Sym{K: sKind, A: a.A, T: val.Type(), V: val}
+			}
+			return &Sym{K: sKind, A: a, T: val.Type(), V: val}
+		case "Elem":
+			return &Sym{K: sTElem, A: a, T: val.Type(), V: val}
+		case "Key":
+			return &Sym{K: sTKey, A: a, T: val.Type(), V: val}
+		}
+	}
+	return nil
 }
 
 // evalBool: truth of a boolean sym under the path facts.
@@ -749,6 +865,10 @@ func assume(st *pstate, b *Sym, v bool) bool {
 			if c.K != sConst {
 				x, c = c, x
 			}
+			if c.K != sConst {
+				st.symeq[b.A.Key()] = append(st.symeq[b.A.Key()], symRel{b.B, eq})
+				st.symeq[b.B.Key()] = append(st.symeq[b.B.Key()], symRel{b.A, eq})
+			}
 			if c.K == sConst {
 				if eq {
 					st.eqc[x.Key()] = c.Key()
@@ -775,14 +895,29 @@ func (ps *PathSim) walk(fn *ssa.Function, b *ssa.BasicBlock, start int, pred *ss
 			ps.Truncated++
 			return
 		}
+		havocNow := false
 		if start == 0 {
 			st.visits[b]++
 			if st.visits[b] > ps.maxVisits {
-				ps.Truncated++
-				return
+				_, hasPhi := b.Instrs[0].(*ssa.Phi)
+				if !ps.Havoc || st.havoced[b] || !hasPhi {
+					ps.Truncated++
+					return
+				}
+				st.havoced[b] = true
+				havocNow = true
+				for _, ins := range b.Instrs {
+					phi, ok := ins.(*ssa.Phi)
+					if !ok {
+						break
+					}
+					st.iters[phi]++
+					st.env[phi] = &Sym{K: sOpaque, V: phi, T: phi.Type(), iter: 1000 + st.iters[phi], Str: "havoc"}
+				}
+				st.trail = append(st.trail, fmt.Sprintf("%s.b%d:widened", fn.Name(), b.Index))
 			}
 			// phis: simultaneous assignment from the edge taken
-			if pred != nil {
+			if pred != nil && !havocNow {
 				idx := -1
 				for i, p := range b.Preds {
 					if p == pred {
